@@ -262,13 +262,31 @@ class SpecEval(object):
             raise SpecError('%s(k, lo, hi, body) expected' % which)
         name = args[0][1]
         lo, hi = self.term(args[1]), self.term(args[2])
-        if lo.is_int() and hi.is_int() and hi.val - lo.val <= 64 and self.ex.expand_small_quants:
+        if lo.is_int() and hi.is_int() and hi.val - lo.val <= 32 and self.ex.expand_small_quants:
             parts = []
             saved = self.bound.get(name)
             try:
                 for v_ in range(lo.val, hi.val):
                     self.bound[name] = I(v_)
                     parts.append(self.boolean(args[3]))
+            finally:
+                if saved is None:
+                    self.bound.pop(name, None)
+                else:
+                    self.bound[name] = saved
+            return and_(*parts) if which == 'forall' else or_(*parts)
+        qmax = self.ex.opts.get('qmax') if self.ex.expand_small_quants else None
+        if qmax is not None and not self.ex.has_bound([lo, hi]) and not (lo.is_int() and hi.is_int()):
+            # bounded mode: expand over lo .. lo+qmax-1 with guards; exact iff hi - lo <= qmax (side obligation)
+            self.ex.oblige(self.st, 'qbound', which, le(sub(hi, lo), I(qmax)), {'clause': 'quantifier range within the bounded-mode expansion limit'})
+            parts = []
+            saved = self.bound.get(name)
+            try:
+                for j in range(qmax):
+                    kv = add(lo, I(j))
+                    self.bound[name] = kv
+                    b_ = self.boolean(args[3])
+                    parts.append(implies(lt(kv, hi), b_) if which == 'forall' else and_(lt(kv, hi), b_))
             finally:
                 if saved is None:
                     self.bound.pop(name, None)
